@@ -17,8 +17,14 @@ CONSTANTS
   Queries <- MCQueriesD
   MaxCount = 12
   Tracks = {0}
+  Hscrolls = {FALSE}
+  HscrollOffs = {10}
+  KeepRights = {FALSE}
+  Scrollbars <- MCNoScrollbar
+  Borders = {FALSE}
+  Patterns <- MCPatternsNone
   Acts = {"edit", "move", "toggle", "list", "resize"}
 INIT Init
 NEXT Next
-INVARIANTS InvRowCount InvWidth InvClaims InvOnePointer InvPointerOnCurrent InvMarkers InvHeaderOutsideList InvRTrim InvCursorVisible
+INVARIANTS InvHidden InvVisAlgebra InvRowCount InvWidth InvClaims InvOnePointer InvPointerOnCurrent InvMarkers InvHeaderOutsideList InvRTrim InvCursorVisible
 CHECK_DEADLOCK FALSE
